@@ -356,7 +356,7 @@ def gen_history(r, prog, n_ops, weights=None, sane=0.8, hand_n=0, slots=3, olds=
     hot = mentioned_names(prog) or names
     nch = sum(1 for it in kgen.walk(prog["items"]) if it["k"] == "choice")
     w = {"set": 40, "unset": 8, "cunset": 3, "reset": 8, "reset_menu": 3, "read": 18, "save": 6, "save_min": 0, "load": 6,
-         "load_hand": 3 if hand_n else 0, "restart": 4, "edge": 0, "dance": 2, "load_bad": 0, "stale_merge": 0, "clobber": 0, "stale_chain": 0}
+         "load_hand": 3 if hand_n else 0, "restart": 4, "edge": 0, "dance": 2, "load_bad": 0, "stale_merge": 0, "clobber": 0, "stale_chain": 0, "force_dance": 3}
     member_bias = 0.25
     if weights:
         weights = dict(weights)
@@ -371,6 +371,10 @@ def gen_history(r, prog, n_ops, weights=None, sane=0.8, hand_n=0, slots=3, olds=
     gated = sorted({(a, b) for a, b, en in edges if b in group_of and a not in group_of[b][1]})
     if not gated:
         w["dance"] = 0
+    forced = sorted({(c["name"], t) for c in kgen.walk(prog["items"]) if c["k"] == "config" for kind2, t, _v, _c in c["sets"]
+                     if kind2 == "set" and t in tab and tab[t]["prompt"]})
+    if not forced:
+        w["force_dance"] = 0
     kinds = [k for k, v in w.items() for _ in range(v)]
     ops = []
     saved = set(presaved)  # slots an earlier history on the same sandbox has written
@@ -476,6 +480,17 @@ def gen_history(r, prog, n_ops, weights=None, sane=0.8, hand_n=0, slots=3, olds=
             ops.append(["clobber", ("m%d" % r.randrange(slots)) if r.random() < 0.7 else r.randrange(slots), int(r.random() < 0.4)])
         elif kind == "load_bad":
             ops.append(["load_bad", r.choice(sorted(saved)) if saved else 0])
+        elif kind == "force_dance":
+            # a `set` that forces a prompted option: the user's own value is hidden while the source is on and comes back
+            # when it goes off (the evaluation leaves side flags behind that writers and the UI consult)
+            if forced:
+                src, tgt = r.choice(forced)
+                ops.append(["set", tgt, r.choice(kgen.SANE[tab[tgt]["type"]])])
+                ops.append(["set", src, "y"])
+                ops.append(["read", [tgt], r.choice([1, 15, 9])])
+                ops.append(["set", src, "n"])
+                if r.random() < 0.3:
+                    ops.append(["read", [tgt], 15])
         elif kind == "stale_chain":
             # a -> b -> c: make b's stored default stale (save, change a, merge the save back: b gets pinned under policy
             # sdkconfig), look at c, then replace the configuration (by a load that works, or one that fails part-way)
